@@ -39,6 +39,21 @@ Theorem C20_max_min_noskip_float (want_max : bool) arr : arr <> [] ->
   = if existsb (is_null fops) arr then null fops else if want_max then max_exec fops arr else min_exec fops arr.
 Proof. exact (noskip_ext_one_pass fops fops_laws fops_null_unique want_max arr). Qed.
 Print Assumptions C20_max_min_noskip_float.
+(* ... for every number of worker threads that leaves no piece empty (n_threads <= length): reducing the pieces without
+   skipping and then the piece results without skipping is the one-pass result *)
+Theorem C20_max_noskip_any_threads_float arr n : (0 < n)%nat -> Forall (fun c => c <> []) (array_split arr n) ->
+  reduce_1d fops (op_max fops) (op_max fops) None false false arr n
+  = if existsb (is_null fops) arr then null fops else max_exec fops arr.
+Proof. exact (noskip_max_any_threads fops fops_laws fops_null_unique eq_refl arr n). Qed.
+Theorem C20_min_noskip_any_threads_float arr n : (0 < n)%nat -> Forall (fun c => c <> []) (array_split arr n) ->
+  reduce_1d fops (op_min fops) (op_min fops) None false false arr n
+  = if existsb (is_null fops) arr then null fops else min_exec fops arr.
+Proof. exact (noskip_min_any_threads fops fops_laws fops_null_unique eq_refl arr n). Qed.
+Print Assumptions C20_max_noskip_any_threads_float.
+Print Assumptions C20_min_noskip_any_threads_float.
+Example C20_noskip_threads_hypothesis_is_satisfiable :
+  Forall (fun c : list nat => c <> []) (array_split [1; 2; 3]%nat 2) /\ (0 < 2)%nat.
+Proof. split; [|repeat constructor]. vm_compute. repeat constructor; discriminate. Qed.
 Print Assumptions C20_nanmax_float.
 Print Assumptions C20_nanmin_float.
 Print Assumptions C20_nanmax_int.
